@@ -17,7 +17,8 @@ CONSTANTS NNodes,     \* number of nodes of the base document
           PairStride, \* second mutations only at nodes n with n % PairStride = Seed % PairStride
           Seed
 
-TypeOps == {"to_null", "to_bool", "to_num", "to_str", "to_arr", "to_obj", "to_empty_obj", "to_empty_str"}
+TypeOps == {"to_null", "to_bool", "to_num", "to_str", "to_arr", "to_obj", "to_empty_obj", "to_empty_str",
+            "to_str_braces"}       \* a string with balanced but wrongly ordered template braces ("v1}/{version"): URLs, paths, expressions
 StructOps == {"delete", "dup_key_other_type", "nest_deep", "huge_number", "truncate_here", "byte_noise"}
 RefOps == {"ref_dangling", "ref_self", "ref_parent", "ref_wrong_kind", "ref_scalar", "ref_array_elem", "ref_escaped_ptr",
            "ref_hash_only", "ref_empty", "ref_ext_scalar", "ref_ext_array", "ref_ext_empty", "ref_ext_nonjson", "ref_ext_missing",
